@@ -1568,6 +1568,97 @@ def emittedWitness : Option (Bool × Bool × Bool × Bool) :=
     | _, _, _ => none
   | .error _ => none
 
+/-- the (scale) address range `create_weights` derives for core `k` when the tensor is read in place -/
+def directScale (rs : List Range) (src depth k : Nat) : AddrRange :=
+  match findRange rs k depth with
+  | some r => ⟨src + r.offset, roundUp16 r.scaleBytes⟩
+  | none => ⟨0, 0⟩
+
+def directWeight (rs : List Range) (src depth k : Nat) : AddrRange :=
+  match findRange rs k depth with
+  | some r => ⟨src + r.offset + r.weightOffset, roundUp16 r.weightBytes⟩
+  | none => ⟨0, 0⟩
+
+theorem createWeightsLoop_direct_map (rs : List Range) (src depth : Nat) :
+    ∀ (cores : List Nat) (off0 : Nat), (∀ k ∈ cores, (findRange rs k depth).isSome) →
+      createWeightsLoop rs src none none depth cores off0
+        = some (cores.map (directWeight rs src depth), cores.map (directScale rs src depth)) := by
+  intro cores
+  induction cores with
+  | nil => intro off0 _; rfl
+  | cons k ks ih =>
+    intro off0 hall
+    have hk := hall k (by simp)
+    cases hf : findRange rs k depth with
+    | none => rw [hf] at hk; simp at hk
+    | some r =>
+      simp only [createWeightsLoop, hf]
+      rw [ih off0 (fun x hx => hall x (by simp [hx]))]
+      simp [directWeight, directScale, hf]
+
+theorem mem_zip_map_self {α β : Type} (f : α → β) : ∀ (l : List α) (p : α × β), p ∈ l.zip (l.map f) → p.2 = f p.1 := by
+  intro l
+  induction l with
+  | nil => intro p hp; simp at hp
+  | cons a t ih =>
+    intro p hp
+    simp only [List.map_cons, List.zip_cons_cons, List.mem_cons] at hp
+    rcases hp with rfl | hp
+    · rfl
+    · exact ih p hp
+
+theorem chanOf_nonempty (n k off len : Nat) (hk : k < n) (hl : k < len) : (chanOf n k off len).length ≠ 0 := by
+  have : off + k ∈ chanOf n k off len := by
+    unfold chanOf
+    simp only [List.mem_map, List.mem_filter, List.mem_range, decide_eq_true_eq]
+    exact ⟨k, ⟨hl, Nat.mod_eq_of_lt hk⟩, rfl⟩
+  intro h0
+  have := List.length_pos_of_mem this
+  omega
+
+theorem find_made (c : Cfg) (offsets : List Nat) (out : Out) (hv : ValidReq (reqOf c offsets))
+    (h : encodeTensor c offsets = .ok out) (s : Nat × Nat × Nat) (hs : s ∈ slices offsets) (k : Nat)
+    (hk : k < activeCores (reqOf c offsets)) :
+    ∃ r, findRange out.rawRanges k s.2.1 = some r ∧ r ∈ out.rawRanges ∧ Made c s.1 s.2.1 s.2.2 k r := by
+  have hf := encodeTensor_facts c offsets out h
+  obtain ⟨_, hb, _, _, _, hsorted⟩ := hv
+  have he : (⟨s.1, k, s.2.1, s.2.2⟩ : Expect) ∈ expected (reqOf c offsets) := (mem_expected_iff _ _).2 ⟨hs, hk⟩
+  obtain ⟨r, hr, hm⟩ := (made_expected c offsets out hb hf).exists_right _ he
+  cases hfind : findRange out.rawRanges k s.2.1 with
+  | none =>
+    unfold findRange at hfind
+    have := List.find?_eq_none.1 hfind r hr
+    simp [hm.hcore, hm.hdepth] at this
+  | some r' =>
+    obtain ⟨hr', hc', hd'⟩ := findRange_mem _ _ _ _ hfind
+    rcases pairwise_mem_cases (rawRanges_distinct c offsets out hsorted hf) r' r hr' hr with hx | hx | hx
+    · subst hx; exact ⟨r', rfl, hr, hm⟩
+    · exact absurd ⟨by rw [hc', hm.hcore], by rw [hd', hm.hdepth]⟩ hx
+    · exact absurd ⟨by rw [hc', hm.hcore], by rw [hd', hm.hdepth]⟩ hx
+
+theorem read_in_image (m : ConstMem) (pre mid post : List Nat) (himg : m.image.toList = pre ++ mid ++ post)
+    (off n : Nat) (hin : off + n ≤ mid.length) :
+    m.read ⟨m.constRegion, pre.length + off, n⟩ = some (bytesAt mid off n) := by
+  have hsize : m.image.size = pre.length + mid.length + post.length := by
+    rw [← Array.length_toList, himg]; simp; omega
+  unfold ConstMem.read
+  simp only [if_true]
+  rw [if_pos (by rw [hsize]; omega), extract_toList, himg, bytesAt_mid _ _ _ _ _ hin]
+
+theorem mem_zip_map_map {α β γ : Type} (f : α → β) (g : α → γ) :
+    ∀ (l : List α) (p : β × γ), p ∈ (l.map f).zip (l.map g) → ∃ k ∈ l, p = (f k, g k) := by
+  intro l
+  induction l with
+  | nil => intro p hp; simp at hp
+  | cons a t ih =>
+    intro p hp
+    simp only [List.map_cons, List.zip_cons_cons, List.mem_cons] at hp
+    rcases hp with rfl | hp
+    · exact ⟨a, by simp, rfl⟩
+    · obtain ⟨k, hk, hp'⟩ := ih p hp
+      exact ⟨k, by simp [hk], hp'⟩
+
+
 /-- a small one-core configuration with three channels split `[0, 1, 3]`: slice 1 is larger than slice 0 -/
 def unevenCfg : Cfg :=
   { ncores := 1, fullDepth := 3, blockDepth := 8, doWeights := true, scales := List.replicate 3 (1073741824, 30),
